@@ -8,7 +8,8 @@ cd $wt || exit 2
 git diff -- include src > /tmp/seed_$name.diff
 [ -s /tmp/seed_$name.diff ] || { echo "no patch applied in worktree"; exit 2; }
 needlib=$(grep -c '^+++ b/src/' /tmp/seed_$name.diff)
-echo "== tests with patch"; cmake --build _build 2>&1 | tail -1
+tg=$(ctest --test-dir _build -N -R "$rx" 2>/dev/null | sed -n 's/.*Test *#[0-9]*: *//p' | tr '\n' ' ')
+echo "== tests with patch ($tg)"; cmake --build _build -j8 --target tbb tbbmalloc $tg 2>&1 | tail -1
 ctest --test-dir _build -R "$rx" --timeout 900 -j8 2>&1 | tail -4 | tee /tmp/seed_$name.tests
 build_demo() { g++ -std=c++17 -O1 -fno-access-control -I$wt/include -I$wt/src $sd/demo.cpp -o $sd/demo -L$L -ltbb -ltbbmalloc -lpthread 2>&1 | tail -3; }
 echo "== demo with patch"; build_demo; w=0; for i in 1 2 3; do LD_LIBRARY_PATH=$L timeout 300 $sd/demo >/tmp/seed_$name.out 2>&1; r=$?; tail -2 /tmp/seed_$name.out; [ $r -ne 0 ] && w=$((w+1)); grep -q FAIL /tmp/seed_$name.out && [ $r -eq 0 ] && w=$((w+1)); done; echo "failed-with-patch=$w/3"
